@@ -18,7 +18,8 @@ So the slots below a null parent never reach the parent's rows, whatever they ho
 The refinement theorem R1' reads   push ext b x = ok b' → Refines (decH b') (decH b ++ [some lv]).
 
 `WFH` is the state invariant `WFB` with the dictionary key clause weakened to what the builders really maintain: a key
-is in range OR it is the placeholder 0 of a non-nullable key builder.  `NoDictKey` is the second clause of `Safe` (the
+is in range OR it is the placeholder 0 of a non-nullable key builder; and every row of the VALUE builder of a dictionary
+is determined (values never receive `serialize_default`).  `NoDictKey` is the second clause of `Safe` (the
 key builder of a dictionary is not itself a dictionary) — `build_builder` only constructs such builders.
 -/
 namespace SaModel.Build
@@ -120,7 +121,8 @@ def WFH : B → Prop
     WFH idx ∧ WFH vals ∧ index.Nodup ∧
     (dec vals).length = index.length ∧
     KeysH idx index ∧
-    DictVals vals index
+    DictVals vals index ∧
+    (∀ r ∈ decH vals, r.isSome = true)
   | .union _ fs types offs cur =>
     types.length = offs.length ∧ cur.length = fs.length ∧ WFHU fs cur ∧
     (∀ to ∈ types.zip offs,
